@@ -187,33 +187,8 @@ func runC20(c *ctx) {
 		}
 	}
 	// EqualString / HasPrefix
-	for i := 0; i < c.n(1500, 20000) && len(refs) > 0; i++ {
-		a := c.rng.Intn(len(refs))
+	testStr := func(a int, s string) {
 		rs := refStr[a]
-		var s string
-		switch c.rng.Intn(8) {
-		case 0:
-			s = rs
-		case 1, 2:
-			s = rs[:c.rng.Intn(len(rs)+1)]
-		case 3:
-			b := []byte(rs)
-			b[c.rng.Intn(len(b))] ^= byte(1 << uint(c.rng.Intn(7)))
-			s = string(b)
-		case 4:
-			s = rs + "0"
-		case 5:
-			s = refStr[c.rng.Intn(len(refs))]
-		case 6:
-			b := []byte(rs[:1+c.rng.Intn(len(rs))])
-			b[len(b)-1] ^= 1
-			s = string(b)
-		case 7:
-			s = strings.SplitN(rs, "-", 2)[0]
-			if c.rng.Intn(2) == 0 {
-				s += "-"
-			}
-		}
 		eq := tri(func() bool { return refs[a].EqualString(s) })
 		pre := tri(func() bool { return refs[a].HasPrefix(s) })
 		idx := c.addCase(fmt.Sprintf("CStr %s %s %d %d", qs(rs), qs(s), eq, pre),
@@ -246,6 +221,57 @@ func runC20(c *ctx) {
 			}
 			c.violation(idx, cl, fmt.Sprintf("ref %q HasPrefix(%q) = %d want %d", rs, s, pre, wantPre), []string{rs, s})
 		}
+	}
+	// every prefix length of one ref of every kind, and the same-length near misses (the last character changed)
+	seenKind := map[string]bool{}
+	for a := range refs {
+		rs := refStr[a]
+		kind := strings.SplitN(rs, "-", 2)[0]
+		if !refs[a].IsSupported() {
+			kind = "other"
+		}
+		if seenKind[kind] {
+			continue
+		}
+		seenKind[kind] = true
+		for n := 0; n <= len(rs); n++ {
+			testStr(a, rs[:n])
+			if n > 0 {
+				b := []byte(rs[:n])
+				b[n-1] ^= 1
+				testStr(a, string(b))
+			}
+		}
+		c.count("str_tests", "all prefix lengths of a "+kind+" ref")
+	}
+	for i := 0; i < c.n(1500, 20000) && len(refs) > 0; i++ {
+		a := c.rng.Intn(len(refs))
+		rs := refStr[a]
+		var s string
+		switch c.rng.Intn(8) {
+		case 0:
+			s = rs
+		case 1, 2:
+			s = rs[:c.rng.Intn(len(rs)+1)]
+		case 3:
+			b := []byte(rs)
+			b[c.rng.Intn(len(b))] ^= byte(1 << uint(c.rng.Intn(7)))
+			s = string(b)
+		case 4:
+			s = rs + "0"
+		case 5:
+			s = refStr[c.rng.Intn(len(refs))]
+		case 6:
+			b := []byte(rs[:1+c.rng.Intn(len(rs))])
+			b[len(b)-1] ^= 1
+			s = string(b)
+		case 7:
+			s = strings.SplitN(rs, "-", 2)[0]
+			if c.rng.Intn(2) == 0 {
+				s += "-"
+			}
+		}
+		testStr(a, s)
 	}
 	// JSON and binary encodings
 	for i := 0; i < c.n(400, 4000) && len(refs) > 0; i++ {
